@@ -387,6 +387,27 @@ func runC03(c *Check) {
 	if len(sub.findings) == 0 {
 		c.Ob("R3.6", "SampleBlock container", sub.evals > 0, "-", fmt.Sprintf("%d R10.1 obligations on the bitswap sample block", sub.evals))
 	}
+	// "retrieved with a valid proof for that block": the Sample verifier binds root, position and axis
+	// (C01's R1.1/R1.2 evaluated on shwap.Sample are part of C03)
+	sub2 := newCheck(c.Prop, c.Tier, p)
+	ci := newCryptoInfo(p)
+	nSample := 0
+	for _, v := range vs {
+		if v.recvT.Obj().Name() != "Sample" {
+			continue
+		}
+		nSample++
+		c.SawFunc(v.fn)
+		c01PositionGate(sub2, ci, vs, v)
+		c01RootGate(sub2, ci, vs, v)
+	}
+	c.Floor("R3.6", "Sample verifiers", nSample, 1)
+	for _, f := range sub2.findings {
+		c.Ob("R3.6", f.Construct, false, f.Pos, f.Msg, f.Path...)
+	}
+	if len(sub2.findings) == 0 {
+		c.Ob("R3.6", "Sample verifier", sub2.evals > 0, "-", fmt.Sprintf("%d root/position/axis obligations on shwap.Sample", sub2.evals))
+	}
 	_ = types.Typ
 }
 
